@@ -43,9 +43,9 @@ class Parser:
     def ast(self, expression, context=None):
         try:
             match = self.is_formula(_re_new_line.sub(
-                lambda m: m.group(1) or '', expression
-            )).groupdict()  # Line feeds are layout, except inside a text.
-            expr = match['name']
+                lambda m: m.group(1) or ' ', expression
+            )).groupdict()  # Line feeds are white space, except inside a text.
+            expr = match['name'].rstrip()
         except (AttributeError, KeyError):
             raise FormulaError(expression)
         builder = self.ast_builder(match=match)
